@@ -112,6 +112,9 @@ func DeleteBundle(repo string, stores context2.Stores, bundleID string, opts ...
 			archivePathToBundleFileList := model.GetArchivePathToBundleFileList(repo, bundleID, i)
 			if e := store.Delete(context.Background(), archivePathToBundleFileList); e != nil && !options.ignoreBundleError {
 				return fmt.Errorf("cannot delete file list %s on bundle %s in repo %s: %v", archivePathToBundleFileList, bundleID, repo, e)
+			} else if e != nil && !errors.Is(e, storagestatus.ErrNotExists) {
+				// a missing file list is tolerated, a store that failed to remove it is not
+				return fmt.Errorf("cannot delete file list %s on bundle %s in repo %s: %v", archivePathToBundleFileList, bundleID, repo, e)
 			}
 		}
 	}
